@@ -964,6 +964,11 @@ Require Verif.Tie.Loops.AlpmRange.
 Require Verif.Tie.Loops.CargoRange.
 Require Verif.Tie.Loops.ConanRange.
 Require Verif.Tie.Loops.CranRange.
+Require Verif.Tie.Loops.DebianRange.
+Require Verif.Tie.Loops.GolangRange.
+Require Verif.Tie.Loops.HexRange.
+Require Verif.Tie.Loops.NugetRange.
+Require Verif.Tie.Loops.PypiRange.
 Require Verif.Tie.Loops.RpmRange.
 Definition C02_tie_alpine_VersionRange_String := Verif.Tie.AlpineRange.tie_alpine_VersionRange_String.
 Print Assumptions C02_tie_alpine_VersionRange_String.
@@ -1095,6 +1100,30 @@ Definition C02_tie_conan_contains_closed := Verif.Tie.Loops.ConanRange.tie_conan
 Print Assumptions C02_tie_conan_contains_closed.
 Definition C02_tie_cran_contains_closed := Verif.Tie.Loops.CranRange.tie_cran_contains_closed.
 Print Assumptions C02_tie_cran_contains_closed.
+Definition C02_tie_debian_satisfiesConstraint_closed := Verif.Tie.Loops.DebianRange.tie_debian_satisfiesConstraint_closed.
+Print Assumptions C02_tie_debian_satisfiesConstraint_closed.
+Definition C02_tie_debian_contains_closed := Verif.Tie.Loops.DebianRange.tie_debian_contains_closed.
+Print Assumptions C02_tie_debian_contains_closed.
+Definition C02_tie_golang_matches_closed := Verif.Tie.Loops.GolangRange.tie_golang_matches_closed.
+Print Assumptions C02_tie_golang_matches_closed.
+Definition C02_tie_golang_contains_closed := Verif.Tie.Loops.GolangRange.tie_golang_contains_closed.
+Print Assumptions C02_tie_golang_contains_closed.
+Definition C02_tie_hex_matches_closed := Verif.Tie.Loops.HexRange.tie_hex_matches_closed.
+Print Assumptions C02_tie_hex_matches_closed.
+Definition C02_tie_hex_contains_closed := Verif.Tie.Loops.HexRange.tie_hex_contains_closed.
+Print Assumptions C02_tie_hex_contains_closed.
+Definition C02_tie_hex_contains_closed_model_ident := Verif.Tie.Loops.HexRange.tie_hex_contains_closed_model_ident.
+Print Assumptions C02_tie_hex_contains_closed_model_ident.
+Definition C02_tie_nuget_matches_closed := Verif.Tie.Loops.NugetRange.tie_nuget_matches_closed.
+Print Assumptions C02_tie_nuget_matches_closed.
+Definition C02_tie_nuget_contains_closed := Verif.Tie.Loops.NugetRange.tie_nuget_contains_closed.
+Print Assumptions C02_tie_nuget_contains_closed.
+Definition C02_tie_nuget_contains_closed_model_num := Verif.Tie.Loops.NugetRange.tie_nuget_contains_closed_model_num.
+Print Assumptions C02_tie_nuget_contains_closed_model_num.
+Definition C02_tie_pypi_matches_closed := Verif.Tie.Loops.PypiRange.tie_pypi_matches_closed.
+Print Assumptions C02_tie_pypi_matches_closed.
+Definition C02_tie_pypi_contains_closed := Verif.Tie.Loops.PypiRange.tie_pypi_contains_closed.
+Print Assumptions C02_tie_pypi_contains_closed.
 Definition C02_tie_rpm_satisfiesRPMConstraint_closed := Verif.Tie.Loops.RpmRange.tie_rpm_satisfiesRPMConstraint_closed.
 Print Assumptions C02_tie_rpm_satisfiesRPMConstraint_closed.
 Definition C02_tie_rpm_contains_closed := Verif.Tie.Loops.RpmRange.tie_rpm_contains_closed.
